@@ -574,6 +574,19 @@ def _verify_cases(con, registry, config, rep, fnode, clsname, qual):
                 else:
                     kw = dict(args)
                     pos = []
+                    # a parameter of the function under contract was renamed (callers pass it by position): exactly one
+                    # contract key and one parameter are unmatched -> same parameter; anything less clear is a
+                    # contract that no longer fits the function (UNDECIDED), never a TypeError "found" in the code
+                    fa = clo.node.args
+                    names = [p_.arg for p_ in fa.posonlyargs + fa.args + fa.kwonlyargs]
+                    unk = [k_ for k_ in kw if k_ != '*args' and k_ not in names]
+                    if unk and not fa.kwarg:
+                        free = [n_ for n_ in names if n_ not in kw]
+                        if len(unk) == 1 and len(free) == 1:
+                            kw = {(free[0] if k_ == unk[0] else k_): v_ for k_, v_ in kw.items()}
+                        else:
+                            raise OutOfSubset('contract-mismatch: parameters %r of the contract are not parameters of %s'
+                                              % (unk, clo.name), clo.node)
                     extra = kw.pop('*args', None)
                     if extra is not None:
                         for prm in clo.node.args.posonlyargs + clo.node.args.args:
